@@ -86,6 +86,10 @@ func (prop) Generate(rng *sim.Rng, tier string, runIndex int) driver.Scenario {
 			k := rng.Range(12, 24)
 			for i := 0; i < k; i++ {
 				sc.Ops = append(sc.Ops, Op{K: "set", Key: base + i})
+				if rng.Intn(4) == 0 {
+					// look-ups of keys of this and earlier groups while grows are in progress
+					sc.Ops = append(sc.Ops, Op{K: []string{"get", "get1"}[rng.Intn(2)], Key: rng.Intn(base + 24)})
+				}
 				if rng.Intn(9) == 0 {
 					if !itLive {
 						sc.Ops = append(sc.Ops, Op{K: "istart", It: 0})
@@ -98,6 +102,9 @@ func (prop) Generate(rng *sim.Rng, tier string, runIndex int) driver.Scenario {
 			for i := 0; i < k; i++ {
 				if rng.Intn(8) != 0 {
 					sc.Ops = append(sc.Ops, Op{K: "del", Key: base + i})
+				}
+				if rng.Intn(4) == 0 {
+					sc.Ops = append(sc.Ops, Op{K: []string{"get", "get1"}[rng.Intn(2)], Key: rng.Intn(base + 24)})
 				}
 				if itLive && rng.Intn(6) == 0 {
 					sc.Ops = append(sc.Ops, Op{K: "inext", It: 0})
